@@ -1,7 +1,7 @@
 import FinamModel.Spill
 import FinamModel.Props.C10
 import FinamModel.Props.TrCommon
-import FinamModel.Props.TrOutput
+import FinamModel.Props.TrOutputCommon
 import FinamModel.Translated.Output__pack
 import FinamModel.Translated.Output__unpack
 import FinamModel.Translated.Output__clear_data_files
